@@ -516,10 +516,12 @@ const _: () = {
 
         fn variant_seed<V>(self, seed: V) -> Result<(V::Value, Self::Variant), Self::Error>
         where V: serde::de::DeserializeSeed<'de> {
-            Ok((
-                seed.deserialize(self.de.next_section()?.into_deserializer())?,
-                self,
-            ))
+            /* variant names are percent-encoded by the serializer just as other values */
+            let variant = match percent_decode(self.de.next_section()?) {
+                Cow::Borrowed(bytes) => seed.deserialize(bytes.into_deserializer())?,
+                Cow::Owned(byte_vec) => seed.deserialize(serde::de::value::BytesDeserializer::new(&byte_vec))?,
+            };
+            Ok((variant, self))
         }
     }
 
